@@ -66,9 +66,13 @@ def cmdOp (args : List String) : String :=
     | some r1, some r2, some u1, some u2, some v1, some v2 =>
       if !(decide (r1.inRange v1) && decide (r2.inRange v2)) then "bad-op" else
       let comp := b01 (pointOpsCompile r1 r2 u1 u2)
-      if op == "sub" then
+      if op == "cmp3" then
+        let x := spaceshipPoints r1 r2 u1 u2 v1 v2
+        let os := match x.val with | .ok .lt => "0" | .ok .eq => "1" | .ok .gt => "2" | .ub _ => "ub"
+        s!"compiles={b01 (spaceshipCompiles r1 r2 u1 u2)} rep=ord val={os} wrapped={b01 x.wrapped} narrowed={b01 x.narrowed}"
+      else if op == "sub" then
         let x := subPoints r1 r2 u1 u2 v1 v2
-        s!"compiles={comp} rep={(IntTy.common r1 r2).promote.name} val={evalStr x.val} wrapped={b01 x.wrapped} narrowed={b01 x.narrowed}"
+        s!"compiles={comp} rep={(IntTy.common r1 r2).name} val={evalStr x.val} wrapped={b01 x.wrapped} narrowed={b01 x.narrowed}"
       else match opOfName? op with
         | some o =>
           let x := cmpPoints o r1 r2 u1 u2 v1 v2
